@@ -6,6 +6,7 @@ from common import Failure, Outcome, Broken
 from gen import pick, gen_str, mutate_str
 from genrules import gen_policy, gen_inquiry, gen_rule_elem
 import polcase
+from vakt.rules.base import Rule
 from vakt.checker import StringExactChecker, StringFuzzyChecker, RegexChecker, RulesChecker
 
 MODULE = 'Props.C06'
@@ -69,7 +70,19 @@ def gen_field(rng):
     return pick(rng, ['KX', 'KF']), es, v, st, et
 
 
-def run(ctx):
+class StrRule(Rule, str):
+    """a user rule class that also derives from str"""
+    def __new__(cls, text):
+        return str.__new__(cls, text)
+
+    def __init__(self, text):
+        pass
+
+    def satisfied(self, what, inquiry=None):
+        return False
+
+
+def _run(ctx):
     out = Outcome()
     rng = ctx.rng
     cases = []   # (k, policy, value, st, et, tag)
@@ -107,7 +120,7 @@ def run(ctx):
     for (k, pol, v, tag), pobj, line, m in zip(cases, objs, lines, model):
         out.evaluations += 1
         try:
-            a = chk[k].fits(pobj, 'actions', v, qobj)
+            a = chk[k].fits(pobj, 'actions', proto._exotic(v), qobj)
             impl = 'ok T' if a else 'ok F'
             if type(a) is not bool:
                 impl = 'nonbool %r' % (a,)
@@ -191,6 +204,37 @@ def run(ctx):
             f.signature = 'cross-model:' + k
             out.failures.append(f)
         out.nontriv(line)
+    # 4. rule objects that are also strings (a Rule subclass with a str mixin): the policy is rule-defined (its type says
+    #    so) and must not match under a string or regex checker, whatever text the objects carry
+    from vakt.policy import Policy
+    from vakt.storage.memory import MemoryStorage
+    from vakt.guard import Guard, Inquiry
+    for _ in range(ctx.budget(60, 1500)):
+        v = pick(rng, ['get', 'a', 'x y', 'max'])
+        spell = pick(rng, [v, '<%s>' % v, '<.*>', v + 'x'])
+        try:
+            pol = Policy('sr', actions=[StrRule(spell)], subjects=[StrRule(spell)], resources=[StrRule(spell)], effect='allow')
+        except Exception:
+            out.count('strrule-unconstructible')
+            continue
+        for k in ('KR', 'KX', 'KF'):
+            ch = polcase.make_checker(k)
+            out.evaluations += 1
+            out.count('strrule:' + k)
+            try:
+                ft = bool(ch.fits(pol, 'actions', v))
+            except Exception:
+                ft = 'raise'
+            st = MemoryStorage()
+            st.add(pol)
+            dec = Guard(st, ch).is_allowed(Inquiry(action=v, subject=v, resource=v))
+            if ft is True or dec is not False:
+                f = Failure('oracle', {'checker': k, 'policy': 'rule-defined policy (type %r) whose rule objects are also str '
+                                       'instances spelling %r' % (pol.type, spell), 'value': v}, {'fits': ft, 'decision': dec},
+                            None, 'a policy defined with rules matched under a string / regex checker',
+                            'Vakt.C06.rule_policy_never_string')
+                f.signature = 'cross-strrule:' + k
+                out.failures.append(f)
     out.exhaustive = True
     out.extra['exhaustive_slice'] = ('all %d elements of length <= 3 over {a,A,<,>} x %d values x {exact, fuzzy} = %d '
                                      'cases, enumerated completely' % (len(words), len(vals), n_enum))
@@ -199,6 +243,16 @@ def run(ctx):
                 'values + cross-type policies at fits and Guard level; non-trivial = a match, or an element containing '
                 'a tag character; distinct by protocol line')
     return out
+
+
+def run(ctx):
+    # a third of the string inquiry values are instances of a str subclass (an Enum-with-str-mixin member, a tagged
+    # string type): they are equal to, and must be matched like, their text
+    proto.EXOTIC_STR[0] = True
+    try:
+        return _run(ctx)
+    finally:
+        proto.EXOTIC_STR[0] = False
 
 
 def replay(ctx, rp):
